@@ -528,20 +528,23 @@ package compose
 //@   requires cmOK(c) && handlersOK(c)
 //@   requires c.isStream ==> forall(t string, f string :: in(t, values) && in(f, values[t]) ==> is(values[t][f], "streamReader"))
 //@   requires[sep] forall(t string, k string :: in(t, values) && in(k, c.channels) ==> values[t] != chanValues(c.channels[k]))
-//@   modifies chanCtl(c), chanValsContent(c)
+//@   modifies chanCtl(c), chanValsContent(c), gset("closedCopies")
 //@   ensures[unknown_target] (exists(t string :: in(t, values) && !in(t, c.channels))) ==> result != nil
 //@   ensures[ok] cmOK(c)
 //@   at call toChannel.reportValues: assert[only_data_predecessors] forall(f string :: in(f, nFromMap) ==> in(f, dps) && in(f, fromMap))
+//@   at call toChannel.reportValues: assert[every_copy_forwarded_or_closed] @C19 c.isStream ==> forall(f string :: in(f, fromMap) ==> in(f, nFromMap) || gset("closedCopies", fromMap[f]))
+//@   at call sr.close: gadd closedCopies value
 //@   loop 1:
-//@     modifies chanCtl(c), chanValsContent(c), fresh()
+//@     modifies chanCtl(c), chanValsContent(c), gset("closedCopies"), fresh()
 //@     invariant[ok] cmOK(c) && handlersOK(c)
 //@     invariant[known] forall(t string :: in(t, $seen) ==> in(t, c.channels))
 //@     invariant[kind] c.isStream ==> forall(t string, f string :: in(t, values) && in(f, values[t]) ==> is(values[t][f], "streamReader"))
 //@     invariant[sep] forall(t string, k string :: in(t, values) && in(k, c.channels) ==> values[t] != chanValues(c.channels[k]))
 //@     invariant[values_dom] forall(t string :: in(t, values) == old(in(t, values)))
 //@   loop 2:
-//@     modifies map(nFromMap)
+//@     modifies map(nFromMap), gset("closedCopies")
 //@     invariant[subset] forall(f string :: in(f, nFromMap) ==> in(f, dps) && in(f, $seen))
+//@     invariant[accounted] @C19 c.isStream ==> forall(f string :: in(f, $seen) ==> in(f, nFromMap) || gset("closedCopies", fromMap[f]))
 
 //@ func (*channelManager).updateDependencies
 //@   props C02
